@@ -69,18 +69,31 @@ HUGE = (10 ** 25, 10 ** 25 + 1, 10 ** 25 + 2, 2 ** 53, 2 ** 53 + 1, 2 ** 53 + 2,
 
 
 @st.composite
-def huge_int_cases(draw):
+def huge_int_cases(draw, allow_float=True):
     """Loop-free games in pure integer arithmetic (integer rewards beyond 2**53, every probability the integer
     1): the solver's sums are exact there, so rewards that differ by 1 in 10**25 are different rewards."""
     owner = draw(st.sampled_from((P1, P2)))
     k = draw(st.integers(2, 4))
     tl, players, rewards = [[]], [owner], [draw(st.sampled_from((0, 1, 10 ** 25)))]
     branches = []
-    base = draw(st.sampled_from((10 ** 25, 2 ** 53, 2 ** 64)))
+    base = draw(st.sampled_from((10 ** 25, 2 ** 53, 2 ** 53, 2 ** 64)))
+    floaty = set()
     for i in range(k):
         depth = draw(st.integers(1, 3))
         first = len(tl)
         total = 0
+        if allow_float and base == 2 ** 53 and draw(st.integers(0, 1)) == 0:
+            # a one-step branch through a chance state whose probability is written 1.0: its value is a FLOAT,
+            # exactly representable (an even number just above 2**53) - Python compares it exactly with the
+            # integer values of the other branches
+            r = base + 2 * draw(st.integers(0, 2))
+            total, depth = r, 1
+            players.append(PR)
+            rewards.append(r)
+            tl.append(None)
+            floaty.add(first)
+            branches.append((first, depth, total))
+            continue
         for d in range(depth):
             r = base + draw(st.integers(0, 2)) if d == 0 else draw(st.sampled_from(HUGE))
             total += r
@@ -93,7 +106,7 @@ def huge_int_cases(draw):
         for d in range(depth):
             s = first + d
             nxt = s + 1 if d + 1 < depth else goal
-            tl[s] = [(1, nxt)] if players[s] == PR else [("go", nxt)]
+            tl[s] = [(1.0 if s in floaty else 1, nxt)] if players[s] == PR else [("go", nxt)]
     tl[0] = [(games.NAMES[i], b[0]) for i, b in enumerate(branches)]
     tl.append([(1, goal)])
     players.append(PR)
@@ -102,7 +115,7 @@ def huge_int_cases(draw):
     best = max(totals) if owner == P1 else min(totals)
     game = dict(rewards=rewards, players=players, transition_list=tl, final_states=[goal])
     return dict(kind="huge_int", game=game, expect=[games.NAMES[i] for i, t in enumerate(totals) if t == best],
-                totals=[str(t) for t in totals])
+                totals=[str(t) for t in totals], float_branches=len(floaty))
 
 
 @st.composite
@@ -197,6 +210,8 @@ def check_huge_int(case):
     v = Verdict()
     game = case["game"]
     v.cls("integer_arithmetic_exact")
+    if case.get("float_branches"):
+        v.cls("an_exactly_representable_float_among_the_integers")
     v.nontrivial = True
     if len(case["expect"]) >= 2:
         v.cls("exact_reward_tie")
